@@ -116,10 +116,19 @@ func zcnOps() []OpDef {
 			}
 			bal, _ := h.Bal(h.Cur, from.ID)
 			v := []uint64{1, 5, 1e10 - 1, 1e10, 1e10 + 1, 7e10, bal, bal + 1, 0}[r.Intn(9)]
+			if r.Chance(0.15 + h.hostile()*0.3) {
+				// another spelling of a known target address (Ethereum addresses are hex: case, blanks)
+				k := r.Intn(5)
+				addr = []string{strings.ToLower(addr), "0x" + strings.ToUpper(addr[2:]), addr + " ", " " + addr, "0X" + addr[2:]}[k]
+				mut = "address-respelled"
+			}
 			in := map[string]interface{}{"ethereum_address": addr}
 			if r.Chance(h.Vars["hostile"].(float64) * 0.3) {
-				in["ethereum_address"] = ""
+				in["ethereum_address"] = []string{"", "", " "}[r.Intn(3)]
 				mut = "no-address"
+				if in["ethereum_address"] != "" {
+					mut = "blank-address"
+				}
 			}
 			return &Call{Name: "zcn.burn", Mut: mut, Meta: map[string]interface{}{"eth": in["ethereum_address"]}, Spec: world.TxnSpec{From: from, To: sc, Value: Coin(v), Fee: Coin(h.fee(r) % 1000), Type: T, Func: "burn", Input: in}}
 		}},
@@ -559,10 +568,10 @@ func zcScenarioC18(h *Hist, mons []Monitor) {
 	for i := 0; i < 2; i++ {
 		submit(byName["zcn.stake"].Build(h, r))
 	}
-	for i := 0; i < 9; i++ {
+	for i := 0; i < 7; i++ {
 		fam := []string{"dup", "dup", "dup", "dup", "dup", "dup", "respell", "pad-foreign", "pad-foreign", "plain"}[r.Intn(10)]
 		submit(zcBuildMint(h, r, fam))
-		if i == 4 {
+		if i == 3 {
 			submit(byName["zcn.delete-authorizer"].Build(h, r))
 		}
 	}
@@ -577,36 +586,162 @@ func init() {
 
 func roundHalfEven(x float64) int { return int(math.RoundToEven(x)) }
 
+// zcMintView is the mint request as the monitor reads it from the submitted transaction.
+type zcMintView struct {
+	Eth    string
+	Amount uint64
+	Nonce  int64
+	Recv   string
+	Sigs   []zcSigEntry
+}
+
+type zcSigEntry struct {
+	ID        string `json:"authorizer_id"`
+	Signature string `json:"signature"`
+}
+
+// zcParseMint decodes the mint payload from the transaction data that was actually submitted.
+func zcParseMint(data string) (*zcMintView, bool) {
+	var env struct {
+		Name  string          `json:"name"`
+		Input json.RawMessage `json:"input"`
+	}
+	if json.Unmarshal([]byte(data), &env) != nil || env.Name != "mint" {
+		return nil, false
+	}
+	var top map[string]json.RawMessage
+	if json.Unmarshal(env.Input, &top) != nil {
+		return nil, false
+	}
+	v := &zcMintView{}
+	var amount, nonce json.Number
+	if json.Unmarshal(top["ethereum_txn_id"], &v.Eth) != nil || json.Unmarshal(top["receiving_client_id"], &v.Recv) != nil ||
+		json.Unmarshal(top["amount"], &amount) != nil || json.Unmarshal(top["nonce"], &nonce) != nil || json.Unmarshal(top["signatures"], &v.Sigs) != nil {
+		return nil, false
+	}
+	a, err := strconv.ParseUint(amount.String(), 10, 64)
+	if err != nil {
+		return nil, false
+	}
+	n, err := strconv.ParseInt(nonce.String(), 10, 64)
+	if err != nil {
+		return nil, false
+	}
+	v.Amount, v.Nonce = a, n
+	return v, true
+}
+
+// zcCanonID is the spelling-independent form of an id (hex digits in lower case, no surrounding blanks, no 0x).
+func zcCanonID(id string) string {
+	return strings.TrimPrefix(strings.ToLower(strings.TrimSpace(id)), "0x")
+}
+
+// zcCanonSig maps every spelling of a signature (hex digits in either case, blanks, 0x, compressed or "(x,y)" affine form) to the
+// curve point it denotes; spellings that denote no point map to themselves.
+func zcCanonSig(s string) string {
+	s = strings.Map(func(c rune) rune {
+		if unicode.IsSpace(c) {
+			return -1
+		}
+		return unicode.ToLower(c)
+	}, s)
+	num := func(t string) string {
+		t = strings.TrimLeft(strings.TrimPrefix(t, "0x"), "0")
+		if t == "" {
+			t = "0"
+		}
+		return t
+	}
+	if strings.HasPrefix(s, "(") && strings.HasSuffix(s, ")") {
+		if p := strings.Split(s[1:len(s)-1], ","); len(p) == 2 {
+			return "point:" + num(p[0]) + ":" + num(p[1])
+		}
+		return "text:" + s
+	}
+	s = strings.TrimPrefix(s, "0x")
+	if x, y, ok := zcPoint(s); ok {
+		return "point:" + num(x) + ":" + num(y)
+	}
+	return "text:" + s
+}
+
+// zcSchemeVerify asks the chain's signature scheme (not the bridge contract) whether sig verifies under the public key.
+func zcSchemeVerify(pk, sig, msg string) (ok bool) {
+	defer func() {
+		if e := recover(); e != nil {
+			ok = false
+		}
+	}()
+	sch := encryption.NewBLS0ChainScheme()
+	if sch.SetPublicKey(pk) != nil {
+		return false
+	}
+	good, err := sch.Verify(sig, msg)
+	return good && err == nil
+}
+
 func monC18(h *Hist, o *TxnObs) {
-	if o.Call.Name != "zcn.mint" {
+	isMint := o.Call.Name == "zcn.mint"
+	view, parsed := zcParseMint(o.Txn.TransactionData)
+	if !isMint && !(parsed && o.Txn.ToClientID == zcnsc.ADDRESS && o.Txn.TransactionType == transaction.TxnTypeSmartContract) {
 		return
 	}
-	m := o.Call.Meta["mint"].(map[string]interface{})
-	amount := m["amount"].(uint64)
-	nonce := m["nonce"].(int64)
-	recv := m["recv"].(string)
-	eth := m["eth"].(string)
-	sigs := m["sigs"].([]map[string]string)
+	if !parsed {
+		// not decodable by the monitor: judge what the generator meant to send
+		m, ok := o.Call.Meta["mint"].(map[string]interface{})
+		if !ok {
+			h.C("C18", "mints_payload_unreadable")
+			return
+		}
+		view = &zcMintView{Eth: m["eth"].(string), Amount: m["amount"].(uint64), Nonce: m["nonce"].(int64), Recv: m["recv"].(string)}
+		for _, s := range m["sigs"].([]map[string]string) {
+			view.Sigs = append(view.Sigs, zcSigEntry{ID: s["authorizer_id"], Signature: s["signature"]})
+		}
+		h.C("C18", "mints_judged_from_generator_meta")
+	}
+	amount, nonce, recv, eth := view.Amount, view.Nonce, view.Recv, view.Eth
 	h.C("C18", "mints_judged")
+	if !isMint {
+		h.C("C18", "mints_judged_resubmitted")
+	}
 	r := h.Runs["C18"]
 	// registered authorizers in the PRE state (counted from the authorizer nodes themselves, not from the contract's counter)
 	reg := map[string]string{}
 	for _, n := range h.NodesOfType(o.Pre, "*zcnsc.AuthorizerNode") {
-		reg[Str(n.Val, "ID")] = Str(n.Val, "PublicKey")
+		reg[zcCanonID(Str(n.Val, "ID"))] = Str(n.Val, "PublicKey")
 	}
 	toSign := mintStringToSign(eth, amount, nonce, recv)
+	// distinct registered signers: keyed by the canonical authorizer id, whatever the spelling of the id or of the signature.
+	// An entry counts when the listed signature denotes the signature the authorizer's key produces for this request (the
+	// harness owns the authorizer keys; BLS signatures are deterministic) or when the chain's signature scheme verifies it
+	// under the registered public key - the more generous of the two, so that a refusal is never demanded by a spelling.
 	valid := map[string]bool{}
-	for _, s := range sigs {
-		pk, ok := reg[s["authorizer_id"]]
+	listed := map[string]int{}
+	texts := map[string]map[string]bool{}
+	foreign := 0
+	for _, s := range view.Sigs {
+		id := zcCanonID(s.ID)
+		pk, ok := reg[id]
 		if !ok {
+			foreign++
 			continue
 		}
-		sch := encryption.NewBLS0ChainScheme()
-		if sch.SetPublicKey(pk) != nil {
-			continue
+		listed[id]++
+		own := false
+		if w := h.W.Wallets[id]; w != nil && zcCanonID(w.PubKey) == zcCanonID(pk) {
+			c := zcCanonSig(s.Signature)
+			own = strings.HasPrefix(c, "point:") && c == zcCanonSig(w.Sign(toSign))
 		}
-		if ok, err := sch.Verify(s["signature"], toSign); ok && err == nil {
-			valid[s["authorizer_id"]] = true
+		scheme := zcSchemeVerify(pk, s.Signature, toSign)
+		if own != scheme {
+			h.C("C18", fmt.Sprintf("obs_signature_spelling_own=%v_scheme=%v", own, scheme))
+		}
+		if own || scheme {
+			valid[id] = true
+			if texts[id] == nil {
+				texts[id] = map[string]bool{}
+			}
+			texts[id][s.Signature] = true
 		}
 	}
 	var percent float64
@@ -621,9 +756,54 @@ func monC18(h *Hist, o *TxnObs) {
 		minted = map[int64]bool{}
 		h.Vars["c18minted"] = minted
 	}
+	// classification of the signature list (evidence that repeated signers around the threshold were exercised)
+	dup, respelled := false, false
+	for id, n := range listed {
+		if n > 1 {
+			dup = true
+		}
+		if len(texts[id]) > 1 {
+			respelled = true
+		}
+	}
+	class := "no-repeat"
+	switch {
+	case respelled:
+		class = "repeat-respelled"
+	case dup:
+		class = "repeat"
+	}
+	rel := func(a, b int) string {
+		switch {
+		case a < b:
+			return "<"
+		case a == b:
+			return "="
+		}
+		return ">"
+	}
+	if dup {
+		h.C("C18", "mints_with_repeated_signer")
+		if respelled {
+			h.C("C18", "mints_with_repeated_signer_in_other_spelling")
+		}
+		if len(valid) < threshold && len(view.Sigs) >= threshold {
+			// only the distinct count stands between this payload and a mint
+			h.C("C18", "mints_repeated_signer_entries_reach_threshold_distinct_below")
+			if respelled {
+				h.C("C18", "mints_respelled_signer_entries_reach_threshold_distinct_below")
+			}
+		}
+		if o.Outcome == "success" {
+			h.C("C18", "mints_with_repeated_signer_succeeded")
+		}
+	}
+	if foreign > 0 {
+		h.C("C18", "mints_with_unregistered_signer")
+	}
 	if r != nil {
 		r.Eval(1)
-		r.Distinct(fmt.Sprintf("auth=%d|valid=%d|thr=%d|mut=%s|reuse=%v|%s", len(reg), len(valid), threshold, o.Call.Mut, minted[nonce], o.Outcome))
+		r.Distinct(fmt.Sprintf("auth=%d|valid%sthr|entries%sthr|thr=%d|%s|foreign=%v|mut=%s|reuse=%v|%s", len(reg), rel(len(valid), threshold), rel(len(view.Sigs), threshold), threshold, class, foreign > 0, o.Call.Mut, minted[nonce], o.Outcome))
 	}
 	if o.Outcome != "success" {
 		return
@@ -687,6 +867,9 @@ func monC19(h *Hist, o *TxnObs) {
 		return
 	}
 	h.C("C19", "burns_judged")
+	if o.Call.Mut != "" {
+		h.C("C19", "burns_"+o.Call.Mut+"|"+o.Outcome)
+	}
 	eth, _ := o.Call.Meta["eth"].(string)
 	var minBurn uint64
 	for _, n := range h.NodesOfType(o.Pre, "*zcnsc.GlobalNode") {
@@ -694,7 +877,7 @@ func monC19(h *Hist, o *TxnObs) {
 	}
 	if r := h.Runs["C19"]; r != nil {
 		r.Eval(1)
-		r.Distinct(fmt.Sprintf("v<min=%v|addr=%v|%s|n=%d", uint64(o.Txn.Value) < minBurn, eth != "", o.Outcome, h.burnNonce(o.Pre, eth)))
+		r.Distinct(fmt.Sprintf("v<min=%v|addr=%v|%s|n=%d|mut=%s", uint64(o.Txn.Value) < minBurn, eth != "", o.Outcome, h.burnNonce(o.Pre, eth), o.Call.Mut))
 	}
 	counts, _ := h.Vars["c19"].(map[string]int64)
 	if counts == nil {
@@ -710,6 +893,9 @@ func monC19(h *Hist, o *TxnObs) {
 	if uint64(o.Txn.Value) < minBurn || eth == "" {
 		h.V("C19", "invalid-burn-accepted", fmt.Sprintf("burn of %d (min %d) to address %q succeeded", o.Txn.Value, minBurn, eth), o)
 	}
+	if eth != "" && strings.TrimSpace(eth) == "" {
+		h.C("C19", "obs_burn_to_blank_address_accepted")
+	}
 	d := h.deltas(o)
 	if d[o.Txn.ClientID]+int64(o.Txn.Fee) != -int64(o.Txn.Value) {
 		h.V("C19", "burner-not-debited-value", fmt.Sprintf("burner delta %d, value %d fee %d", d[o.Txn.ClientID], o.Txn.Value, o.Txn.Fee), o)
@@ -719,6 +905,21 @@ func monC19(h *Hist, o *TxnObs) {
 	}
 	pre, post := h.burnNonce(o.Pre, eth), h.burnNonce(o.Post, eth)
 	counts[eth]++
+	// observation (not judged: the statement keys the nonce by the target address as given): one hex address burnt to under
+	// several spellings keeps one nonce sequence per spelling
+	spell, _ := h.Vars["c19spell"].(map[string]map[string]bool)
+	if spell == nil {
+		spell = map[string]map[string]bool{}
+		h.Vars["c19spell"] = spell
+	}
+	canon := strings.ToLower(strings.TrimSpace(eth))
+	if spell[canon] == nil {
+		spell[canon] = map[string]bool{}
+	}
+	spell[canon][eth] = true
+	if len(spell[canon]) > 1 {
+		h.C("C19", "obs_burn_to_address_known_under_other_spelling_has_own_nonce_sequence")
+	}
 	if post != pre+1 {
 		h.V("C19", "burn-nonce-not-plus-one", fmt.Sprintf("burn nonce of %s went %d -> %d", eth, pre, post), o)
 	}
